@@ -95,3 +95,17 @@ CLAIMS["C16"] = dict(
     note="poll with a timeout is covered by C08's deadline checks only; SC memory; exhaustive only within the model's bounds.",
     design_ref="DESIGN.md §6 C16",
 )
+
+CLAIMS["C14"] = dict(
+    text="Scope.tla (literal model of Scope::drop_all, JoinState::join, Join::wait's load/register/re-load/park, the "
+         "park short-circuit of a cancelled coroutine and the no-second-panic-while-unwinding rule) is checked by TLC for 1-2 "
+         "children with the owner cancelled at every step: the frame outlives every child (the pinned tree's counter-example F7 "
+         "is shown with the switch off, the repaired protocol verified with it on); Cqueue.tla covers cqueue::scope / select! "
+         "(no arm and no kernel side of an arm still at work when the scope is left). The real coroutine::scope is explored "
+         "under the baton with the children as externally spawned actors and a real cancel of the owner at every point, an owner "
+         "panic, a child panic and a thread owner; the cqueue units are the replayed C16 units. Oracle: children (or arms) still "
+         "running / touching the frame flag after the scope was left, panic propagation, result once, hang.",
+    note="coroutine::scope is bound by exploration (seeded + preemption-bounded DFS over the join.* / scope.* points) and by the "
+         "TLC-checked design model; step-level replay exists for the cqueue half only; SC memory; bounded instances.",
+    design_ref="DESIGN.md §6 C14",
+)
